@@ -31,24 +31,60 @@ type spaceAPI struct {
 
 var spaces = []spaceAPI{
 	{"srgb", "Srgb", srgb.From8Bit, srgb.From16Bit,
-		func(c color.NRGBA) (float32, float32, float32, float32) { x, a := srgb.ColorFromNRGBA(c); return x.R, x.G, x.B, a },
-		func(c color.RGBA) (float32, float32, float32, float32) { x, a := srgb.ColorFromRGBA(c); return x.R, x.G, x.B, a },
-		func(c color.Color) (float32, float32, float32, float32) { x, a := srgb.ColorFromEncodedColor(c); return x.R, x.G, x.B, a },
+		func(c color.NRGBA) (float32, float32, float32, float32) {
+			x, a := srgb.ColorFromNRGBA(c)
+			return x.R, x.G, x.B, a
+		},
+		func(c color.RGBA) (float32, float32, float32, float32) {
+			x, a := srgb.ColorFromRGBA(c)
+			return x.R, x.G, x.B, a
+		},
+		func(c color.Color) (float32, float32, float32, float32) {
+			x, a := srgb.ColorFromEncodedColor(c)
+			return x.R, x.G, x.B, a
+		},
 		srgb.LineariseColor, srgb.To8Bit, srgb.To16Bit},
 	{"adobergb", "Adobe", adobergb.From8Bit, adobergb.From16Bit,
-		func(c color.NRGBA) (float32, float32, float32, float32) { x, a := adobergb.ColorFromNRGBA(c); return x.R, x.G, x.B, a },
-		func(c color.RGBA) (float32, float32, float32, float32) { x, a := adobergb.ColorFromRGBA(c); return x.R, x.G, x.B, a },
-		func(c color.Color) (float32, float32, float32, float32) { x, a := adobergb.ColorFromEncodedColor(c); return x.R, x.G, x.B, a },
+		func(c color.NRGBA) (float32, float32, float32, float32) {
+			x, a := adobergb.ColorFromNRGBA(c)
+			return x.R, x.G, x.B, a
+		},
+		func(c color.RGBA) (float32, float32, float32, float32) {
+			x, a := adobergb.ColorFromRGBA(c)
+			return x.R, x.G, x.B, a
+		},
+		func(c color.Color) (float32, float32, float32, float32) {
+			x, a := adobergb.ColorFromEncodedColor(c)
+			return x.R, x.G, x.B, a
+		},
 		adobergb.LineariseColor, adobergb.To8Bit, adobergb.To16Bit},
 	{"prophotorgb", "Prophoto", prophotorgb.From8Bit, prophotorgb.From16Bit,
-		func(c color.NRGBA) (float32, float32, float32, float32) { x, a := prophotorgb.ColorFromNRGBA(c); return x.R, x.G, x.B, a },
-		func(c color.RGBA) (float32, float32, float32, float32) { x, a := prophotorgb.ColorFromRGBA(c); return x.R, x.G, x.B, a },
-		func(c color.Color) (float32, float32, float32, float32) { x, a := prophotorgb.ColorFromEncodedColor(c); return x.R, x.G, x.B, a },
+		func(c color.NRGBA) (float32, float32, float32, float32) {
+			x, a := prophotorgb.ColorFromNRGBA(c)
+			return x.R, x.G, x.B, a
+		},
+		func(c color.RGBA) (float32, float32, float32, float32) {
+			x, a := prophotorgb.ColorFromRGBA(c)
+			return x.R, x.G, x.B, a
+		},
+		func(c color.Color) (float32, float32, float32, float32) {
+			x, a := prophotorgb.ColorFromEncodedColor(c)
+			return x.R, x.G, x.B, a
+		},
 		prophotorgb.LineariseColor, prophotorgb.To8Bit, prophotorgb.To16Bit},
 	{"displayp3", "Srgb", nil, nil,
-		func(c color.NRGBA) (float32, float32, float32, float32) { x, a := displayp3.ColorFromNRGBA(c); return x.R, x.G, x.B, a },
-		func(c color.RGBA) (float32, float32, float32, float32) { x, a := displayp3.ColorFromRGBA(c); return x.R, x.G, x.B, a },
-		func(c color.Color) (float32, float32, float32, float32) { x, a := displayp3.ColorFromEncodedColor(c); return x.R, x.G, x.B, a },
+		func(c color.NRGBA) (float32, float32, float32, float32) {
+			x, a := displayp3.ColorFromNRGBA(c)
+			return x.R, x.G, x.B, a
+		},
+		func(c color.RGBA) (float32, float32, float32, float32) {
+			x, a := displayp3.ColorFromRGBA(c)
+			return x.R, x.G, x.B, a
+		},
+		func(c color.Color) (float32, float32, float32, float32) {
+			x, a := displayp3.ColorFromEncodedColor(c)
+			return x.R, x.G, x.B, a
+		},
 		displayp3.LineariseColor, srgb.To8Bit, srgb.To16Bit},
 }
 
